@@ -155,16 +155,25 @@ impl CustomRoller {
     // previous) period, and always gets the next free sequence within that
     // period. Using a fixed sequence of 1 for time-based rolls would rename
     // over an earlier size-rolled file from the same period and destroy it.
+    // If the clock stepped backwards (or the process restarted with a clock
+    // behind the newest rolled file), naming the file after the now-earlier
+    // period would sort it before older data: readers would see records out of
+    // order and retention would delete the most recent files first. Rolled file
+    // names therefore never go back in time.
+    let period_for_rolled_file = match rolled_files.first() {
+      Some(newest) if newest.timestamp > self.current_period_start => newest.timestamp,
+      _ => self.current_period_start,
+    };
     let last_sequence = rolled_files
       .iter()
       .filter(|rf| {
         self.policy.format_period(rf.timestamp)
-          == self.policy.format_period(self.current_period_start)
+          == self.policy.format_period(period_for_rolled_file)
       })
       .map(|rf| rf.sequence)
       .max()
       .unwrap_or(0);
-    let (period_for_rolled_file, next_sequence) = (self.current_period_start, last_sequence + 1);
+    let next_sequence = last_sequence + 1;
 
     // 4. Rename the old active file to its new rolled name using the correct period.
     let rolled_path = self
